@@ -53,6 +53,7 @@ META = {
         "slots are occupied (work conservation). Level-1 leak histories: pairs (thorough: also triples) of outcomes ending in the same "
         "loop iteration, then the probe. distinct_nontrivial = distinct terminal/saturated per-message logs."
         " Fault-overlap family (mc/fault_overlap.py): message X suffers one fault out of {pre_execute/post_execute/post_save/on_error hook, sync or async ack, result backend} x {RuntimeError, CancelledError, TimeoutError}, backend failing once, body raise/CancelledError/timeout/no-result, malformed/unknown message, broker stream error, while the healthy message Y has suspension points before, inside and after its function and the stop request may arrive at any point; for A in {1,2} and the default / when_received acknowledge point, stop disabled, followed by the saturation probe."
+        " Repeated faults (mc/fault_overlap.py::repeats): the same fault k times in a row (k in 3..6; thorough up to 10) on one worker, then healthy messages - a counter, pool, budget or throttle inside the worker must not change what happens at the k-th occurrence. Followed by the saturation probe (A in {1,2})."
     ),
     "assumptions": [
         "asyncio semantics as implemented by BaseEventLoop (only clock/selector replaced)",
@@ -100,6 +101,27 @@ class C03World(RecvWorld):
                     f"messages {waiting} were taken from the broker but are not being processed although only "
                     f"{len(self.cb_open)} of {self.A} slots are in use at a quiescent state (pending events: {[e for e in menu0 if e[0] != 'timer'][:4]}; history "
                     f"{[m.get('_name') for m in self.msgs[: self.n - self.sc.get('probe', 0)]]})",
+                )
+        # (progress of each message) with nothing but timers left, a message in processing is either a
+        # never-ending body or waits for a timer of its own (timeout label); anything else is blocked for
+        # ever on something inside the worker and keeps its slot
+        if all(e[0] == "timer" for e in menu0) and not self.ret:
+            for k in self.cb_open:
+                if self.msgs[k]["outcome"] == "never" or k in getattr(self, "_blocked_flagged", set()):
+                    continue
+                if any(repr(("callback", k)) in repr(e) for e in menu0):
+                    continue
+                # waiting for an event of the harness that the scenario's completion budget withholds
+                if any(not f.done() and len(lab) > 1 and lab[1] == k for lab, f in self.gates.items() if isinstance(lab, tuple)):
+                    continue
+                pend = self.executor.pending.get(k)
+                if pend is not None and not pend[0].done():
+                    continue
+                self.__dict__.setdefault("_blocked_flagged", set()).add(k)
+                self.flag(
+                    "C03:processing-blocked-forever",
+                    f"message {k} is in processing, no external event and no timer of its own is pending, yet it does not finish "
+                    f"(it holds one of the {self.A} slots): {self.per[k]}",
                 )
         nprobe = self.sc.get("probe", 0)
         if not nprobe or self.A is None:
@@ -193,6 +215,12 @@ def fault_family(tier: str) -> List[Dict[str, Any]]:
                     continue
                 sc["probe"] = a + 1
                 out.append(sc)
+    # the same outcome 3..6 times in a row (a pool, a budget or a throttle inside the worker), then the probe
+    for a in (1, 2):
+        for sc in fo.repeats(tier, ks=(3, 4, 5, 6) if tier == "quick" else (3, 4, 5, 6, 8, 10), a=a, tail=0, overlap=(a == 2 and tier == "thorough")):
+            sc["probe"] = a + 1
+            sc["stream"] = "infinite"
+            out.append(sc)
     return out
 
 
